@@ -21,6 +21,7 @@ class SimLoop(base_events.BaseEventLoop):
         super().__init__()
         self._now = 0.0
         self.unhandled: list[dict] = []
+        self.harness_errors: list[str] = []
         self.set_exception_handler(self._on_exception)
         self._batch = 0  # callbacks left to run in the current iteration
         self.callbacks_run = 0
@@ -40,6 +41,16 @@ class SimLoop(base_events.BaseEventLoop):
 
     def _on_exception(self, loop, context) -> None:
         self.unhandled.append(context)
+        # an exception raised by the harness's own code inside a loop callback (innermost frame in /verif/vf) would
+        # silently drop an event: it is kept apart and turned into a machinery failure by the runners
+        exc = context.get("exception")
+        tb = getattr(exc, "__traceback__", None)
+        last = None
+        while tb is not None:
+            last = tb
+            tb = tb.tb_next
+        if last is not None and "/vf/" in last.tb_frame.f_code.co_filename and "aioesphomeapi" not in last.tb_frame.f_code.co_filename:
+            self.harness_errors.append(f"{type(exc).__name__}: {exc} at {last.tb_frame.f_code.co_filename}:{last.tb_lineno}")
 
     # ---- activation
     def install(self) -> "SimLoop":
